@@ -138,9 +138,10 @@ Proof.
     replace (Z.of_nat k + 1) with (Z.of_nat (S k)) by lia. apply IH. lia.
 Qed.
 
-Theorem unmarshal_conf_agrees bk n data : wf_bytes data -> (0 <= n <= Z.of_nat (length bk)) ->
+Theorem unmarshal_conf_agrees_full bk n data : wf_bytes data -> (0 <= n <= Z.of_nat (length bk)) ->
   exists o', g_OutputConfiguration_Unmarshal (bk, n) data = Val (None, o') /\
-             firstn (Z.to_nat (snd o')) (fst o') = outconf_unmarshal bk data.
+             firstn (Z.to_nat (snd o')) (fst o') = outconf_unmarshal bk data /\
+             0 <= snd o' <= Z.of_nat (length (fst o')).
 Proof.
   intros Hw Hn. unfold g_OutputConfiguration_Unmarshal. cbv zeta.
   set (count := (length data / 4)%nat).
@@ -155,7 +156,7 @@ Proof.
     destruct (Z.ltb_spec (Z.of_nat (length bk)) (Z.of_nat count)); [lia|]. cbn [orb rbind].
     unfold g_for. rewrite Z.sub_0_r, Nat2Z.id.
     pose proof (uloop data bk count Hw eq_refl Hc' count 0%nat ltac:(lia)) as L. cbn [firstn overwrite_all skipn app Z.of_nat] in L.
-    unfold ubody, zero_setting, gzero, setting, dest in L. cbv zeta in L. rewrite L. cbn [rbind]. eexists. split; [reflexivity|]. cbn [fst snd]. rewrite Nat2Z.id.
+    unfold ubody, zero_setting, gzero, setting, dest in L. cbv zeta in L. rewrite L. cbn [rbind]. eexists. split; [reflexivity|]. cbn [fst snd]. split; [rewrite Nat2Z.id|rewrite app_length, overwrite_all_length by (rewrite !firstn_length; lia); rewrite ?firstn_length, ?skipn_length, ?Hgl; lia].
     rewrite firstn_app. rewrite overwrite_all_length by (rewrite !firstn_length; lia).
     rewrite firstn_length, Hgl. rewrite Nat.min_id, Nat.sub_diag. cbn [firstn]. rewrite app_nil_r.
     rewrite firstn_all2 by (rewrite overwrite_all_length; rewrite !firstn_length; lia).
@@ -174,11 +175,18 @@ Proof.
     unfold g_for. rewrite Z.sub_0_r, Nat2Z.id.
     assert (Hbl' : (count <= @length setting base)%nat) by (unfold setting; lia).
     pose proof (uloop data base count Hw eq_refl Hbl' count 0%nat ltac:(lia)) as L. cbn [firstn overwrite_all skipn app Z.of_nat] in L.
-    unfold ubody, zero_setting, gzero, setting, dest in L. cbv zeta in L. rewrite L. cbn [rbind]. eexists. split; [reflexivity|]. cbn [fst snd]. rewrite Nat2Z.id.
+    unfold ubody, zero_setting, gzero, setting, dest in L. cbv zeta in L. rewrite L. cbn [rbind]. eexists. split; [reflexivity|]. cbn [fst snd]. split; [rewrite Nat2Z.id|rewrite app_length, overwrite_all_length by (rewrite !firstn_length; lia); rewrite ?firstn_length, ?skipn_length, ?Hgl; lia].
     rewrite firstn_app. rewrite overwrite_all_length by (rewrite !firstn_length; lia).
     rewrite firstn_length, Hgl. rewrite Nat.min_id, Nat.sub_diag. cbn [firstn]. rewrite app_nil_r.
     rewrite firstn_all2 by (rewrite overwrite_all_length; rewrite !firstn_length; lia).
     rewrite <- Hgl at 2. rewrite firstn_all. rewrite <- Hbl at 1. rewrite firstn_all. reflexivity.
+Qed.
+
+Corollary unmarshal_conf_agrees bk n data : wf_bytes data -> (0 <= n <= Z.of_nat (length bk)) ->
+  exists o', g_OutputConfiguration_Unmarshal (bk, n) data = Val (None, o') /\
+             firstn (Z.to_nat (snd o')) (fst o') = outconf_unmarshal bk data.
+Proof.
+  intros Hw Hn. destruct (unmarshal_conf_agrees_full bk n data Hw Hn) as (o' & H1 & H2 & _). exists o'. split; assumption.
 Qed.
 
 (* ---- Marshal ---- *)
